@@ -198,26 +198,45 @@ Definition C12_tcp_termination_full_statement : Prop :=
   sh_ret (fst (tcp_run_w cfgA cfgB sA sB cutsA cutsB endA endB wdA wdB empA empB
                  (sched ++ concat (repeat [0; 1; 2]%nat (length sA + length sB + length empA + length empB + 8))))) = true.
 
-(* ---- UDP -> tunnel: who owns batchBuf.  The main loop (thread 0: Lock / read one datagram and frame it in place,
-   with the size flushes / Unlock / final flush) and the 20 ms ticker goroutine (thread 1: Lock / take
-   batchBuf[:batchPos] / tunnelConn.Write returns / Unlock) over the real in-place buffer; own_run late ds sched is
-   the state after ANY schedule.  late = false is the code: the slice handed to the tunnel stays owned by the lock
-   holder until Write has returned. ---- *)
+(* ---- UDP -> tunnel: who owns batchBuf, and when the tunnel is half-closed.  The main loop (thread 0: Lock / read one
+   datagram and frame it in place, with the size flushes / Unlock / final flush under the lock / Unlock / close(done) +
+   tryCloseWrite(tunnelConn)) and the 20 ms ticker goroutine (thread 1: Lock / take batchBuf[:batchPos] /
+   tunnelConn.Write returns / Unlock) over the real in-place buffer and a tunnel that HONOURS its half-close (a Write
+   after CloseWrite is refused); own_run late fac ds sched is the state after ANY schedule.  late = fac = false is the
+   code. ---- *)
 
 (* under every schedule the bytes the tunnel has consumed are a prefix of the framed datagrams in arrival order, and
    once the main loop is done they are exactly all of them — whatever the ticker does, however long its Write takes *)
 Theorem C12_udp_batch_buffer_owned_until_write_returns :
   forall (ds : list dgram) (sched : list nat),
-  let s := own_run false ds sched in
+  let s := own_run false false ds sched in
   (exists rest_, encode_all (ev_dgrams (map EvD ds)) = b_out (fst s) ++ rest_) /\
   (forall p1, snd s = [(0%nat, BDone); (1%nat, p1)] -> b_out (fst s) = encode_all (ev_dgrams (map EvD ds))).
 Proof. exact c12_own_stream. Qed.
 Print Assumptions C12_udp_batch_buffer_owned_until_write_returns.
 
+(* the final flush precedes the half-close: under every schedule no tunnel Write is ever refused, and at the moment
+   the tunnel's write side is shut down it has already consumed every datagram *)
+Theorem C12_udp_final_flush_precedes_half_close :
+  forall (ds : list dgram) (sched : list nat),
+  let s := own_run false false ds sched in
+  b_werr (fst s) = false /\
+  (b_cw (fst s) = true -> b_out (fst s) = encode_all (ev_dgrams (map EvD ds))).
+Proof. exact c12_own_flush_before_half_close. Qed.
+Print Assumptions C12_udp_final_flush_precedes_half_close.
+
+(* the variant whose final flush runs after the half-close: the last batch is refused *)
+Theorem C12_udp_flush_after_close_variant_refuted :
+  let s := own_run false true [[65; 65]] [0; 0; 0; 0; 0; 0; 0; 0]%nat in
+  snd s = [(0%nat, BDone); (1%nat, BIdle)] /\ b_out (fst s) = [] /\ b_werr (fst s) = true /\
+  b_out (fst s) <> encode_all (ev_dgrams (map EvD [[65; 65]])).
+Proof. exact c12_own_flush_after_close_refuted. Qed.
+Print Assumptions C12_udp_flush_after_close_variant_refuted.
+
 (* the variant whose timed flush unlocks BEFORE its tunnel Write has returned (the slice aliases batchBuf): a schedule
    in which "BB" arrives while the Write of "AA" is stalled — the tunnel receives BB BB *)
 Theorem C12_udp_late_write_variant_refuted :
-  let s := own_run true [[65; 65]; [66; 66]] late_sched in
+  let s := own_run true false [[65; 65]; [66; 66]] late_sched in
   snd s = [(0%nat, BDone); (1%nat, BIdle)] /\
   b_out (fst s) = [0; 2; 66; 66; 0; 2; 66; 66] /\
   b_out (fst s) <> encode_all (ev_dgrams (map EvD [[65; 65]; [66; 66]])).
@@ -226,7 +245,8 @@ Print Assumptions C12_udp_late_write_variant_refuted.
 
 (* non-vacuity: the same arrival pattern on the code as it is *)
 Theorem C12_udp_same_schedule_locked_ok :
-  let s := own_run false [[65; 65]; [66; 66]] (late_sched ++ [1; 0; 0; 0; 0; 0; 0]%nat) in
-  snd s = [(0%nat, BDone); (1%nat, BIdle)] /\ b_out (fst s) = [0; 2; 65; 65; 0; 2; 66; 66].
+  let s := own_run false false [[65; 65]; [66; 66]] ([0; 0; 0; 1; 1; 0; 0; 0; 0; 0; 0; 1; 0; 1; 0; 0; 0; 0; 0; 0; 0]%nat) in
+  snd s = [(0%nat, BDone); (1%nat, BIdle)] /\ b_out (fst s) = [0; 2; 65; 65; 0; 2; 66; 66] /\
+  b_cw (fst s) = true /\ b_werr (fst s) = false.
 Proof. exact c12_own_same_schedule_ok. Qed.
 Print Assumptions C12_udp_same_schedule_locked_ok.
